@@ -41,6 +41,11 @@ PASS_QUICK = [
      "combinations only remove information"),
     ("ClassModelImplPropQMof.cfg", "Impl => Req: property qualifiers "
      "QA/QB/QC x values on a chain of 4 (MOF path)"),
+    ("ClassModelImplPropFl.cfg", "Impl => Req: flavors given ON THE USE of a "
+     "property qualifier (9 combinations) x flavor of the declaration "
+     "(QA/QB/QC) x values, chain of 3, both paths"),
+    ("ClassModelImplParFl.cfg", "Impl => Req: flavors on the use of a "
+     "parameter qualifier x declaration flavor x values (MOF path)"),
 ]
 PASS_THOROUGH = [
     ("ClassModelImplBig.cfg", "Impl => Req: 5 classes, depth 4"),
@@ -53,6 +58,9 @@ PASS_THOROUGH = [
      "qualifiers x all values, chain of 4"),
     ("ClassModelImplMethQFixedBig.cfg", "repaired design: method/parameter "
      "qualifiers, both paths"),
+    ("ClassModelImplPropFlBig.cfg", "flavors on the use, chain of 4 (MOF)"),
+    ("ClassModelImplMethFlBig.cfg", "flavors on the use of method and "
+     "parameter qualifiers"),
 ]
 # deviations of the current tree seen at design level: the transcription of
 # the code as it is must FAIL, the transcription with the obvious repair passes
@@ -61,6 +69,10 @@ DEVIATIONS = [
      "class-level qualifiers are resolved with propagate=False: ToSubclass "
      "qualifiers of the superclass are not inherited, DisableOverride is not "
      "enforced"),
+    ("ClassModelImplSigAsIs.cfg", "ClassModelImplSigFixed.cfg",
+     "an overriding method whose parameter list differs from the overridden "
+     "one ends in AttributeError (neither accepted nor refused by a CIM "
+     "error)"),
 ]
 REGRESSIONS = [
     ("ClassModelImplRegOrigin.cfg", "GetFullOk",
@@ -234,8 +246,11 @@ def run(ctx, pid="C12"):
         calls = []
         for c in b:
             c = dict(c)
-            if c["op"] in ("Create", "Modify"):
+            c["obj"] = int(c.get("obj", 0))
+            if c["op"] in ("Create", "Modify", "ClientEdit"):
                 c["d"] = H.norm_decl(c["d"])
+                if c["op"] == "ClientEdit":
+                    c.pop("via", None)
             else:
                 c.pop("d", None)
                 c.pop("super", None)
@@ -249,14 +264,29 @@ def run(ctx, pid="C12"):
         rng = random.Random(dseed ^ 0x5bd1e995)
         calls = H.random_history(rng, nclasses=rng.choice([4, 5, 6, 6]))
         jobs.append((dseed, calls, ["mixed", "mixed", "api", "mof"][i % 4]))
+    # directed family: isolation of passed client objects (reuse / edits)
+    for i in range(16 if quick else 80):
+        dseed = ctx.rng.randrange(1 << 30)
+        jobs.append((dseed, H.reuse_history(random.Random(dseed ^ 0x2f0b)),
+                     "mixed"))
     drivers = drive_all(jobs, level)
     judge(ctx, jobs, drivers, pre=[((7, st_job[1], "given"), st_drv,
                                     st_verdict)])
     ctx.assumptions += [
         "universe: <=6 classes C12_A..F, depth <=5, property k (Key, roots), "
-        "p, q, method m(x); qualifier declarations QA(ToSubclass,"
-        "EnableOverride) QB(Restricted,EnableOverride) QC(ToSubclass,"
-        "DisableOverride) + Key/Override/Description; values {absent,1,2}",
+        "p, q, method m with parameter list x / x,y / y / none; qualifier "
+        "declarations QA(ToSubclass,EnableOverride) QB(Restricted,"
+        "EnableOverride) QC(ToSubclass,DisableOverride) + Key/Override/"
+        "Description; values {absent,1,2}; explicit flavors on the USE "
+        "({-,ToSubclass,Restricted} x {-,Enable,DisableOverride}) through MOF "
+        "and CIMQualifier attributes",
+        "undecided by the statement (both outcomes admissible): restating an "
+        "inherited DisableOverride qualifier as EnableOverride, restating a "
+        "(Restricted, DisableOverride) qualifier, an override that changes "
+        "the parameter list (accept or CIM error; never another exception)",
+        "client objects are values: the same CIMClass object passed again "
+        "means its declaration again; in-place edits of passed / returned "
+        "objects (ClientEdit) do not change the forest",
         "which declaration is exposed is observed through a version token "
         "(default value of p/q, Description qualifier of k/m)",
         "propagated/class_origin of qualifiers, the presence of the Override "
@@ -266,8 +296,7 @@ def run(ctx, pid="C12"):
         "EnumerateClasses: class set and 'only removes information' are "
         "judged; that IncludeClassOrigin=True must deliver class_origin there "
         "is not in the statement -> recorded as observation (impl_drift)",
-        "an overriding method always redeclares its parameter x; array/"
-        "reference/embedded properties, associations, indications and "
+        "array/reference/embedded properties, associations, indications and "
         "several namespaces are out of scope",
         "instances are observed through a read-only iteration of the "
         "instance store after DeleteClass (orphans are invisible to the API)",
